@@ -1,4 +1,5 @@
 import Hcl.Proofs.Settle
+import Hcl.Proofs.AcceptedValid
 open Rust
 
 /-!
@@ -167,3 +168,42 @@ def exActs : List Action :=
    .assign "b" (.bin .add (.wire "reg_outputA") (.wire "a")) (.bits 64)]
 example : ValidFrom [] exActs := by
   simp [exActs, ValidFrom, Action.isPure, Action.out, Action.reads, refs]
+
+/-! ### for every accepted program (no hypothesis about the schedule) -/
+
+theorem sched_readsEarlier : ∀ (l : List Action) (avail base : List String), (∀ n ∈ avail, n ∈ base) →
+    Sched avail l → (∀ a ∈ l, a.isPure = true) → ReadsEarlier base l
+  | [], _, _, _, _, _ => trivial
+  | a :: rest, avail, base, hsub, hs, hp => by
+    refine ⟨fun x hx => hsub x (hs.1 x hx), ?_⟩
+    apply sched_readsEarlier rest (avail ++ a.writes) (a.out :: base) _ hs.2 (fun b hb => hp b (List.mem_cons_of_mem _ hb))
+    intro n hn
+    rcases List.mem_append.mp hn with h | h
+    · exact List.mem_cons_of_mem _ (hsub n h)
+    · rw [pure_writes a (hp a List.mem_cons_self)] at h
+      simp at h; subst h; exact List.mem_cons_self
+
+/-- **C01 for every accepted program.**  Whatever order the hash tables were iterated in, the action list of an
+    accepted program splits into value-writing actions `pre` and state-changing actions `fin` such that, after any
+    cycle that completes, every driven wire equals its definition evaluated in the final valuation (with the
+    start-of-cycle registers and memory), wires nobody drives keep their values, and that valuation is the
+    only one with this property that agrees with it on the register outputs and constants. -/
+theorem C01_accepted (fl : Flags) (cls : CharClass) (o : Orders) (stmts : List Stmt) (p : Program)
+    (ho : OrdersOK o) (hwf : StmtsWF stmts)
+    (h : Program.new fl cls o y86FixedFunctions stmts = .ok p) :
+    ∃ (pre fin : List Action) (known : List String), p.actions = pre ++ fin ∧ (∀ a ∈ fin, a.isPure = false) ∧
+      ∀ (s t : State), execActions fl p.actions s = .ok t →
+        (∀ a ∈ pre, ∃ v, a.defn fl s.regs s.mem t.values.toEnv = .ok v ∧ t.values.toEnv a.out = some v) ∧
+        (∀ x, x ∉ pre.map Action.out → t.values.toEnv x = s.values.toEnv x) ∧
+        (∀ τ : Env, agreeOn known τ t.values.toEnv →
+          (∀ a ∈ pre, ∃ v, a.defn fl s.regs s.mem τ = .ok v ∧ τ a.out = some v) →
+          ∀ a ∈ pre, τ a.out = t.values.toEnv a.out) := by
+  obtain ⟨pre, fin, known, hsplit, hv, hfin, hsched, _, _⟩ := Program_new_valid fl cls o stmts p ho hwf h
+  refine ⟨pre, fin, known, hsplit, hfin, ?_⟩
+  intro s t hex
+  rw [hsplit] at hex
+  have hsettle := C01_settlement fl pre fin s t hv hfin hex
+  refine ⟨hsettle, fun x hx => C01_stable fl pre fin s t hv hfin hex x hx, ?_⟩
+  intro τ hag hτ
+  have hre := sched_readsEarlier pre known known (fun _ hn => hn) hsched (validFrom_pure pre [] hv)
+  exact settled_unique fl s.regs s.mem pre known τ t.values.toEnv hre hag hτ hsettle
